@@ -92,7 +92,9 @@ def k_read_response(ip, args, kwargs):
     G["out_at_read"] = len(G["out"])
     if core.branch(sym.fresh_bool("reply_breaks").t):
         raise managesieve.Error("Connection closed by server")
-    code = b"OK" if core.branch(sym.fresh_bool("reply_ok").t) else b"NO"
+    ok = core.branch(sym.fresh_bool("reply_ok").t)
+    G["last_status_ok"] = ok
+    code = b"OK" if ok else b"NO"
     text = sym.fresh_str("reply_text", True, register=False)
     core.assume(sym.F_utf8ok(text.t))      # conforming server: human-readable text is UTF-8 (RFC 5804 1.4)
     return (code, text, sym.fresh_str("reply_content", True, register=False))
@@ -133,6 +135,10 @@ def h_send_command(nargs, nextra):
     for i in range(nextra):
         prove(out[1 + i][2] == extra[i] + CRLF, "W3.extra-line")
     prove(G.get("reads", 0) == 1 and G["out_at_read"] == 1 + nextra, "W3.everything-sent-before-the-single-read")
+    if kind == "return":
+        # return contract used by every caller (C09/C10/C14/C16): the status of the one reply read, as str
+        prove(len(r) == 2 and (r[0] == "OK" or r[0] == "NO"), "W3.returns-the-status-of-the-reply-as-str")
+        prove(r[0] == ("OK" if G["last_status_ok"] else "NO"), "W3.returned-status-is-the-one-read")
 
 
 def h_call_site(mname):
